@@ -333,11 +333,13 @@ Definition render_head (fields : list (bytes * bytes)) : bytes :=
 
 Fixpoint split_line (s : bytes) (cur : bytes) : option (bytes * bytes) :=
   match s with
-  | 13 :: 10 :: r => Some (rev cur, r)
-  | c :: r => split_line r (c :: cur)
   | [] => None
+  | c :: r =>
+      if (c =? 13) && (match r with d :: _ => d =? 10 | [] => false end) then Some (rev cur, tl r)
+      else split_line r (c :: cur)
   end.
-Fixpoint drop_sp (s : bytes) : bytes := match s with 32 :: r => drop_sp r | _ => s end.
+Fixpoint drop_sp (s : bytes) : bytes :=
+  match s with c :: r => if c =? 32 then drop_sp r else s | [] => [] end.
 Fixpoint parse_head_f (fuel : nat) (s : bytes) (acc : list (bytes * bytes)) : option (list (bytes * bytes) * bytes) :=
   match fuel with
   | O => None
@@ -476,56 +478,62 @@ Definition split_at (cs : bool) (r : rule) (f : bytes) : res (bytes * bytes) :=
       do d <- slice f 0 cut; do pi <- slice_from f cut; Ok (d, pi)
   end.
 
-Definition env_list (cs : bool) (sv : server) (r : rule) (q : request) (f : bytes) : res (list (bytes * bytes)) :=
-  do dp <- split_at cs r f;
-  let '(docuri, pathinfo) := dp in
+Definition env_base (sv : server) (r : rule) (q : request) (docuri pathinfo : bytes) : list (bytes * bytes) :=
   let '(ip0, port) := match last_index (q_remote q) 58 with
                       | Some i => (firstn i (q_remote q), skipn (S i) (q_remote q))
                       | None => (q_remote q, [])
                       end in
   let ip := remove_first 93 (remove_first 91 ip0) in
   let script0 := docuri in          (* TrimSuffix(fpath, pathInfo) *)
-  let base :=
-    [ (bs "AUTH_TYPE", []);
-      (bs "CONTENT_LENGTH", hdr_get (bs "Content-Length") (q_headers q));
-      (bs "CONTENT_TYPE", hdr_get (bs "Content-Type") (q_headers q));
-      (bs "GATEWAY_INTERFACE", bs "CGI/1.1");
-      (bs "PATH_INFO", pathinfo);
-      (bs "QUERY_STRING", q_query q);
-      (bs "REMOTE_ADDR", ip);
-      (bs "REMOTE_HOST", ip);
-      (bs "REMOTE_PORT", port);
-      (bs "REMOTE_IDENT", []);
-      (bs "REMOTE_USER", q_user q);
-      (bs "REQUEST_METHOD", q_method q);
-      (bs "REQUEST_SCHEME", bs "http");
-      (bs "SERVER_NAME", sv_name sv);
-      (bs "SERVER_PORT", sv_port sv);
-      (bs "SERVER_PROTOCOL", q_proto q);
-      (bs "SERVER_SOFTWARE", sv_software sv ++ [SLASH] ++ sv_version sv);
-      (bs "DOCUMENT_ROOT", r_root r);
-      (bs "DOCUMENT_URI", docuri);
-      (bs "HTTP_HOST", q_host q);
-      (bs "REQUEST_URI", q_requri q);
-      (bs "SCRIPT_FILENAME", fjoin (r_root r) script0);
-      (bs "SCRIPT_NAME", path_join (q_prefix q) script0) ] in
-  let pt := match pathinfo with [] => [] | _ => [(bs "PATH_TRANSLATED", fjoin (r_root r) pathinfo)] end in
-  let hdrs := map (fun kv => (env_name (fst kv), join (bs ", ") (snd kv))) (q_headers q) in
-  (* FCGIClient.Head/Get/Options/Post *)
+  [ (bs "AUTH_TYPE", []);
+    (bs "CONTENT_LENGTH", hdr_get (bs "Content-Length") (q_headers q));
+    (bs "CONTENT_TYPE", hdr_get (bs "Content-Type") (q_headers q));
+    (bs "GATEWAY_INTERFACE", bs "CGI/1.1");
+    (bs "PATH_INFO", pathinfo);
+    (bs "QUERY_STRING", q_query q);
+    (bs "REMOTE_ADDR", ip);
+    (bs "REMOTE_HOST", ip);
+    (bs "REMOTE_PORT", port);
+    (bs "REMOTE_IDENT", []);
+    (bs "REMOTE_USER", q_user q);
+    (bs "REQUEST_METHOD", q_method q);
+    (bs "REQUEST_SCHEME", bs "http");
+    (bs "SERVER_NAME", sv_name sv);
+    (bs "SERVER_PORT", sv_port sv);
+    (bs "SERVER_PROTOCOL", q_proto q);
+    (bs "SERVER_SOFTWARE", sv_software sv ++ [SLASH] ++ sv_version sv);
+    (bs "DOCUMENT_ROOT", r_root r);
+    (bs "DOCUMENT_URI", docuri);
+    (bs "HTTP_HOST", q_host q);
+    (bs "REQUEST_URI", q_requri q);
+    (bs "SCRIPT_FILENAME", fjoin (r_root r) script0);
+    (bs "SCRIPT_NAME", path_join (q_prefix q) script0) ] ++
+  (* PATH_TRANSLATED only when PATH_INFO is not empty *)
+  match pathinfo with [] => [] | _ => [(bs "PATH_TRANSLATED", fjoin (r_root r) pathinfo)] end.
+
+(* "Add all HTTP headers to env variables" *)
+Definition hdr_pairs (q : request) : list (bytes * bytes) :=
+  map (fun kv => (env_name (fst kv), join (bs ", ") (snd kv))) (q_headers q).
+
+(* FCGIClient.Head/Get/Options/Post *)
+Definition meth_of (q : request) : list (bytes * bytes) :=
   let clen := if (0 <? q_cl q)%Z then Z.to_N (q_cl q)
               else match parse_dec (hdr_get (bs "Content-Length") (q_headers q)) with Some n => n | None => 0 end in
   let m := q_method q in
-  let meth :=
-    if beq m (bs "HEAD") then [(bs "REQUEST_METHOD", bs "HEAD"); (bs "CONTENT_LENGTH", bs "0")]
-    else if beq m (bs "GET") then [(bs "REQUEST_METHOD", bs "GET"); (bs "CONTENT_LENGTH", dec clen)]
-    else if beq m (bs "OPTIONS") then [(bs "REQUEST_METHOD", bs "OPTIONS"); (bs "CONTENT_LENGTH", bs "0")]
-    else
-      let um := to_upper m in
-      [(bs "REQUEST_METHOD", if beq um [] || beq um (bs "GET") then bs "POST" else um);
-       (bs "CONTENT_LENGTH", dec clen);
-       (bs "CONTENT_TYPE", match hdr_get (bs "Content-Type") (q_headers q) with
-                           | [] => bs "application/x-www-form-urlencoded" | ct => ct end)] in
-  Ok (base ++ pt ++ r_env r ++ hdrs ++ meth).
+  if beq m (bs "HEAD") then [(bs "REQUEST_METHOD", bs "HEAD"); (bs "CONTENT_LENGTH", bs "0")]
+  else if beq m (bs "GET") then [(bs "REQUEST_METHOD", bs "GET"); (bs "CONTENT_LENGTH", dec clen)]
+  else if beq m (bs "OPTIONS") then [(bs "REQUEST_METHOD", bs "OPTIONS"); (bs "CONTENT_LENGTH", bs "0")]
+  else
+    let um := to_upper m in
+    [(bs "REQUEST_METHOD", if beq um [] || beq um (bs "GET") then bs "POST" else um);
+     (bs "CONTENT_LENGTH", dec clen);
+     (bs "CONTENT_TYPE", match hdr_get (bs "Content-Type") (q_headers q) with
+                         | [] => bs "application/x-www-form-urlencoded" | ct => ct end)].
+
+(* the assignments to the env map in program order (later ones overwrite earlier ones) *)
+Definition env_list (cs : bool) (sv : server) (r : rule) (q : request) (f : bytes) : res (list (bytes * bytes)) :=
+  do dp <- split_at cs r f;
+  Ok (env_base sv r q (fst dp) (snd dp) ++ r_env r ++ hdr_pairs q ++ meth_of q).
 
 (* map semantics: the last assignment of a key wins *)
 Definition env_lookup (k : bytes) (l : list (bytes * bytes)) : option bytes :=
@@ -575,6 +583,7 @@ Inductive case :=
 | CWire (ps : list (list seg * list seg)) (hasbody : bool) (body : list seg) (wire : list seg) (panicked : bool)
 | CDemux (recs : list (N * list seg * N)) (tail : list seg) (sizes : list N)
          (obs_data : list seg) (obs_err : N) (obs_stderr : list seg)
+| CChild (checks : list (bytes * list seg * list seg))    (* label, expected, observed *)
 | CServe (cs : bool) (sv : server) (rules : list rule) (stat_tbl open_tbl : list (bytes * bool))
          (q : request) (qbody : list seg) (rs : rscript) (obs : sobs).
 
@@ -818,6 +827,10 @@ Definition judge (c : case) : N :=
   match c with
   | CWire ps hasbody body wire panicked => judge_wire ps hasbody body wire panicked
   | CDemux recs tail sizes od oe os => judge_demux recs tail sizes od oe os
+  | CChild checks =>
+      (* Go's own net/http/fcgi responder as the peer: what it understood / what the client got
+         back must equal what was sent (the comparison is the spec; there is no model part) *)
+      verdict true (forallb (fun c => beq (expand (snd (fst c))) (expand (snd c))) checks)
   | CServe cs sv rules stat_tbl open_tbl q qbody0 rs obs =>
       let qbody := expand qbody0 in
       verdict (serve_agree cs sv rules stat_tbl open_tbl q qbody rs obs)
